@@ -1,5 +1,6 @@
 (* The judge is sound: an observation that agrees with the model satisfies the property. *)
-From SC Require Import Base.Prelude Pages.Pager Pages.C15Judge Pages.PagerProofs Pages.WasteProofs.
+From SC Require Import Base.Prelude Pages.Codec Pages.CodecProofs Pages.PagerCfg Pages.Pager Pages.C15Judge
+  Pages.PagerProofs Pages.WasteProofs Pages.PagerTable.
 From Coq Require Import Sorted.
 
 Local Open Scope Z_scope.
@@ -18,25 +19,31 @@ Proof.
   - apply Z.eqb_eq in H. subst. reflexivity.
 Qed.
 
-Lemma agrees_keys s keys size tok obs :
-  agrees (KKeys s keys size tok obs) = true ->
-  obs = key_chain (variant_of s) keys size (harness_fuel keys) tok.
+Lemma agrees_keys s keys dropkey sizes raw0 tok extra obs :
+  agrees (KKeys s keys dropkey sizes raw0 tok extra obs) = true ->
+  obs = key_chain (cfg_of s) keys dropkey sizes (WFirst tok extra).
 Proof.
-  simpl. apply list_eqb_eq. apply outcome_eqb_eq. intros x y. apply String.eqb_eq.
+  simpl. intros H. apply andb_true_iff in H. destruct H as [H _]. revert H.
+  apply list_eqb_eq. apply outcome_eqb_eq. intros x y. apply String.eqb_eq.
 Qed.
 
-Lemma agrees_waste ids size tok obs :
-  agrees (KWaste ids size tok obs) = true ->
-  obs = waste_chain ids size (harness_fuel ids) tok.
+Lemma agrees_waste ids sizes tok obs :
+  agrees (KWaste ids sizes tok obs) = true ->
+  obs = waste_chain ids sizes tok.
 Proof.
   simpl. apply list_eqb_eq. apply outcome_eqb_eq. intros x y. apply Z.eqb_eq.
 Qed.
 
 Theorem judge_sound c : C15_guard c = true -> agrees c = true -> C15_ok c = true.
 Proof.
-  destruct c as [s keys size tok obs|ids size tok obs]; intros Hg Ha.
-  - rewrite (agrees_keys _ _ _ _ _ Ha). apply key_model_ok. exact Hg.
-  - rewrite (agrees_waste _ _ _ _ Ha). apply waste_model_ok.
+  destruct c as [s keys dropkey sizes raw0 tok extra obs|ids sizes tok obs]; intros Hg Ha.
+  - rewrite (agrees_keys _ _ _ _ _ _ _ _ Ha). simpl in Hg.
+    apply andb_true_iff in Hg. destruct Hg as [Hg Hex].
+    apply andb_true_iff in Hg. destruct Hg as [Hg Hf]. apply andb_true_iff in Hg. destruct Hg as [Hwf H32].
+    apply key_model_ok; auto; [apply all_cfg_ok|apply Z.ltb_lt; exact Hf|apply is_byte_b_spec; exact Hex].
+  - rewrite (agrees_waste _ _ _ _ Ha). simpl in Hg.
+    apply andb_true_iff in Hg. destruct Hg as [H32 Hf].
+    apply waste_model_ok; auto. apply Z.ltb_lt; exact Hf.
 Qed.
 
 Corollary judge_zero c : C15_guard c = true -> agrees c = true -> judge c = 0.
@@ -48,41 +55,136 @@ Qed.
 (* Statements in Prop form (used by Props/C15.v)                       *)
 (* ------------------------------------------------------------------ *)
 
+(* answer i is a page of at most spec_cap sizes[i] items reporting total n *)
+Fixpoint pages_within_sizes {T} (n : Z) (sizes : list Z) (obs : list (outcome T)) : Prop :=
+  match obs, sizes with
+  | [], _ => True
+  | o :: os, s :: ss => (exists k nx, o = OPage k nx n /\ zlen k <= spec_cap s) /\ pages_within_sizes n ss os
+  | _ :: _, [] => False
+  end.
+
 (* every answer is a page of at most c items reporting total n *)
 Definition pages_within {T} (c n : Z) (obs : list (outcome T)) : Prop :=
   Forall (fun o => exists k nx, o = OPage k nx n /\ zlen k <= c) obs.
 
-Lemma page_fits_within {T} c n (obs : list (outcome T)) :
-  forallb (page_fits c n) obs = true -> pages_within c n obs.
+Lemma is_prefix_full a b : is_prefix a b = true -> zlen a = zlen b -> a = b.
 Proof.
-  intros H. apply Forall_forall. intros o Ho.
-  rewrite forallb_forall in H. specialize (H o Ho). destruct o as [k nx t| |]; simpl in H; try discriminate.
-  apply andb_true_iff in H. destruct H as [Hk Ht]. apply Z.eqb_eq in Ht. apply Z.leb_le in Hk.
-  subst. exists k, nx. auto.
+  intros Hp Hl. pose proof (is_prefix_split a b Hp) as Hb.
+  assert (Hlen : List.length b = (List.length a + List.length (skipn (List.length a) b))%nat)
+    by (rewrite Hb at 1; apply app_length).
+  unfold zlen in Hl. destruct (skipn (List.length a) b) eqn:Hs.
+  - rewrite Hb, app_nil_r. reflexivity.
+  - simpl in Hlen. lia.
 Qed.
 
-(* key-token servers, any well-formed first token, any number of allowed calls >= the bound *)
-Theorem key_pages_enumerate s keys size tok fuel :
-  keys_wf keys = true -> 0 <= size -> tok <> TokMalformed ->
+(* what the judge's walk means *)
+Lemma enumerates_spec {T} : forall sizes rest n (obs : list (outcome T)),
+  Forall (fun z => 0 <= z) sizes -> enumerates rest n sizes obs = true ->
+  chain_shape_ok obs = true /\ concat_keys obs = rest /\ pages_within_sizes n sizes obs.
+Proof.
+  induction sizes as [|s ss IH]; intros rest n obs Hpos He; [destruct obs; discriminate|].
+  destruct obs as [|o os]; [discriminate|].
+  inversion Hpos as [|? ? Hs Hss]; subst.
+  cbn [enumerates] in He. destruct (Z.ltb_spec s 0) as [|_]; [lia|].
+  destruct o as [k nx t| |]; try discriminate.
+  apply andb_true_iff in He. destruct He as [He Hnx].
+  apply andb_true_iff in He. destruct He as [He Hpre].
+  apply andb_true_iff in He. destruct He as [Hk Ht].
+  apply Z.leb_le in Hk. apply Z.eqb_eq in Ht. subst t.
+  destruct nx as [x|].
+  - apply andb_true_iff in Hnx. destruct Hnx as [Hnn Hrec].
+    destruct (IH _ _ _ Hss Hrec) as [Hsh [Hcat Hw]].
+    destruct os as [|o' os']; [discriminate|].
+    repeat split.
+    + exact Hsh.
+    + change (concat_keys (OPage k (Some x) n :: o' :: os')) with (k ++ concat_keys (o' :: os')).
+      rewrite Hcat. symmetry. apply is_prefix_split. exact Hpre.
+    + exists k, (Some x). auto.
+    + exact Hw.
+  - apply andb_true_iff in Hnx. destruct Hnx as [Hnil Hlen].
+    destruct os; [|discriminate]. apply Z.eqb_eq in Hlen.
+    split; [reflexivity|]. split.
+    + simpl. rewrite app_nil_r. apply is_prefix_full; auto.
+    + simpl. split; [|destruct ss; exact I]. exists k, None. auto.
+Qed.
+
+Lemma enumerates_no_panic {T} : forall sizes rest n (obs : list (outcome T)),
+  enumerates rest n sizes obs = true -> ~ In OPanic obs.
+Proof.
+  induction sizes as [|s ss IH]; intros rest n obs He; [destruct obs; discriminate|].
+  destruct obs as [|o os]; [discriminate|].
+  cbn [enumerates] in He. destruct (s <? 0).
+  - destruct o; try discriminate. apply andb_true_iff in He. destruct He as [_ Hn].
+    destruct os; [|discriminate]. intros [H|[]]. discriminate.
+  - destruct o as [k nx t| |]; try discriminate.
+    apply andb_true_iff in He. destruct He as [_ Hnx].
+    destruct nx.
+    + apply andb_true_iff in Hnx. destruct Hnx as [_ Hrec].
+      intros [H|H]; [discriminate|]. exact (IH _ _ _ Hrec H).
+    + apply andb_true_iff in Hnx. destruct Hnx as [Hn _]. destruct os; [|discriminate].
+      intros [H|[]]. discriminate.
+Qed.
+
+(* HEADLINE, key-token servers: every RPC (its configuration read from the tree), any listing,
+   any first token, ANY page size on each request *)
+Theorem key_pages_enumerate s keys dropkey sizes tok extra :
+  keys_wf keys = true -> in32 (zlen keys) = true ->
+  Forall (fun z => 0 <= z) sizes -> tok <> TokMalformed -> Forall is_byte extra ->
+  let rest := expected_after keys tok in
+  zlen rest < zlen sizes ->
+  let obs := key_chain (cfg_of s) keys dropkey sizes (WFirst tok extra) in
+  chain_shape_ok obs = true
+  /\ concat_keys obs = rest
+  /\ NoDup (concat_keys obs)
+  /\ pages_within_sizes (zlen keys) sizes obs
+  /\ zlen obs = calls_key (zlen rest) sizes
+  /\ zlen obs <= zlen rest + 1.
+Proof.
+  intros Hwf H32 Hpos Htok Hex rest Hfuel obs.
+  destruct (key_chain_good (cfg_of s) keys dropkey sizes tok extra (all_cfg_ok s) Hwf Htok Hex Hfuel) as [He Hn].
+  rewrite (in32_wrap _ H32) in He.
+  destruct (enumerates_spec sizes _ _ _ Hpos He) as [Hsh [Hcat Hw]].
+  fold obs in Hsh, Hcat, Hw, Hn. fold rest in Hcat, Hn.
+  repeat split; auto.
+  - rewrite Hcat. apply SS_NoDup.
+    destruct (keys_wf_spec keys Hwf) as [Hs _].
+    destruct (token_split VGreater keys tok Hs Htok) as [pre [Hk _]].
+    rewrite Hk in Hs. destruct (SS_app_inv _ _ _ Hs) as [_ [Hr _]]. exact Hr.
+  - rewrite Hn. apply calls_key_le. apply zlen_nonneg.
+Qed.
+
+Lemma pages_within_const {T} size n : forall fuel (obs : list (outcome T)),
+  pages_within_sizes n (const_sizes size fuel) obs -> pages_within (spec_cap size) n obs.
+Proof.
+  induction fuel as [|f IH]; intros obs H; destruct obs as [|o os]; try constructor; simpl in H; try contradiction.
+  - destruct H as [Ho _]. exact Ho.
+  - destruct H as [_ Hr]. apply IH. exact Hr.
+Qed.
+
+(* the same page size on every request: exactly |rest|/cap + 1 calls *)
+Corollary key_pages_enumerate_const s keys dropkey size tok extra fuel :
+  keys_wf keys = true -> in32 (zlen keys) = true -> 0 <= size -> tok <> TokMalformed -> Forall is_byte extra ->
   let rest := expected_after keys tok in
   let c := cap_page_size size in
-  zlen rest / c + 1 <= Z.of_nat fuel ->
-  let obs := key_chain (variant_of s) keys size fuel tok in
+  zlen rest / c + 1 <= Z.of_nat fuel -> zlen rest < Z.of_nat fuel ->
+  let obs := key_chain (cfg_of s) keys dropkey (const_sizes size fuel) (WFirst tok extra) in
   zlen obs = zlen rest / c + 1
   /\ chain_shape_ok obs = true
   /\ concat_keys obs = rest
   /\ NoDup (concat_keys obs)
   /\ pages_within c (zlen keys) obs.
 Proof.
-  intros Hwf Hsize Htok rest c Hfuel obs.
-  destruct (keys_wf_spec keys Hwf) as [Hs Hne].
-  destruct (token_split (variant_of s) keys tok Hs Htok) as [pre [Hk Hni]].
-  assert (Hg : chain_good rest c (zlen keys) obs).
-  { apply (key_chain_from (variant_of s) keys size Hs Hne Hsize fuel pre rest tok Hk Htok Hni). fold c. lia. }
-  destruct Hg as [Hsh [Hcat [Hfit Hlen]]].
+  intros Hwf H32 Hsize Htok Hex rest c Hfuel Hfuel2 obs.
+  assert (Hpos : Forall (fun z => 0 <= z) (const_sizes size fuel)).
+  { apply Forall_forall. intros z Hz. apply repeat_spec in Hz. lia. }
+  assert (Hlen : zlen (const_sizes size fuel) = Z.of_nat fuel).
+  { unfold zlen, const_sizes. rewrite repeat_length. reflexivity. }
+  destruct (key_pages_enumerate s keys dropkey (const_sizes size fuel) tok extra Hwf H32 Hpos Htok Hex
+              ltac:(rewrite Hlen; exact Hfuel2)) as [Hsh [Hcat [Hnd [Hw [Hn _]]]]].
+  fold obs in Hsh, Hcat, Hnd, Hw, Hn. fold rest in Hcat, Hn.
   repeat split; auto.
-  - rewrite Hcat. apply SS_NoDup. rewrite Hk in Hs. destruct (SS_app_inv _ _ _ Hs) as [_ [Hr _]]. exact Hr.
-  - apply page_fits_within. exact Hfit.
+  - rewrite Hn. apply calls_key_const; auto. apply zlen_nonneg.
+  - unfold c. rewrite <- (cap_is_spec size Hsize). eapply pages_within_const. exact Hw.
 Qed.
 
 Lemma cap_page_size_spec size : 0 <= size ->
@@ -103,110 +205,224 @@ Proof.
   lia.
 Qed.
 
-Theorem key_page_variants_agree keys tok size :
-  strictly_sorted keys = true -> key_page VGeSkip keys tok size = key_page VGreater keys tok size.
+Theorem key_page_variants_agree c keys w size :
+  strictly_sorted keys = true ->
+  key_page (with_variant c VGeSkip) keys false w size = key_page (with_variant c VGreater) keys false w size.
 Proof.
-  intros Hs. unfold key_page, key_page_core.
-  rewrite (next_index_variants_agree keys (last_key tok) Hs). reflexivity.
+  intros Hs. unfold key_page.
+  change (token_of (with_variant c VGeSkip) w) with (token_of c w).
+  change (token_of (with_variant c VGreater) w) with (token_of c w).
+  cbn [pc_validates pc_mask_before with_variant]. rewrite !andb_false_r.
+  change (extra_of (with_variant c VGeSkip) w) with (extra_of c w).
+  change (extra_of (with_variant c VGreater) w) with (extra_of c w).
+  assert (Hcore : forall k, key_page_core (with_variant c VGeSkip) keys keys k (extra_of c w) size
+                            = key_page_core (with_variant c VGreater) keys keys k (extra_of c w) size).
+  { intros k. unfold key_page_core, cap_of. cbn [pc_variant pc_enc pc_default pc_max with_variant].
+    rewrite (next_index_variants_agree keys k Hs). reflexivity. }
+  destruct (token_of c w); try reflexivity; rewrite Hcore; reflexivity.
 Qed.
 
 (* bad inputs: one InvalidArgument answer, whatever the collection (no hypotheses on keys) *)
-Theorem key_bad_input_rejected v keys size tok fuel :
+Theorem key_bad_input_rejected s keys dropkey size sizes tok extra :
   tok = TokMalformed \/ size < 0 ->
-  key_chain v keys size (S fuel) tok = [OErr InvalidArgument].
-Proof. intros H. apply key_chain_rejects; auto. lia. Qed.
+  key_chain (cfg_of s) keys dropkey (size :: sizes) (WFirst tok extra) = [OErr InvalidArgument].
+Proof.
+  intros [->|Hneg].
+  - apply key_chain_rejects; [reflexivity|discriminate].
+  - unfold key_chain. cbn [chain_req]. rewrite key_page_negative; auto. apply all_cfg_ok.
+Qed.
 
-Theorem waste_bad_input_rejected ids size tok fuel :
+Theorem waste_bad_input_rejected ids size sizes tok :
   tok = WMalformed \/ (exists z, tok = WNum z /\ (z < 0 \/ zlen ids < z)) \/ size < 0 ->
-  waste_chain ids size (S fuel) tok = [OErr InvalidArgument].
+  waste_chain ids (size :: sizes) tok = [OErr InvalidArgument].
 Proof.
-  intros H. apply waste_chain_rejects; [|lia].
-  destruct H as [->|[[z [-> Hz]]|H]]; [left; reflexivity|left|right; exact H].
-  simpl. apply orb_true_iff. destruct Hz; [left; apply Z.ltb_lt|right; apply Z.ltb_lt]; assumption.
+  intros [->|[[z [-> Hz]]|H]].
+  - apply waste_chain_rejects; [reflexivity|discriminate].
+  - apply waste_chain_rejects; [|discriminate].
+    simpl. apply orb_true_iff. destruct Hz; [left; apply Z.ltb_lt|right; apply Z.ltb_lt]; assumption.
+  - unfold waste_chain. cbn [chain_req]. unfold waste_page.
+    destruct tok as [|z|]; [| |reflexivity].
+    + destruct ((zlen ids <? 0) || (zlen ids <? zlen ids)); [reflexivity|].
+      destruct (Z.ltb_spec size 0); [reflexivity|lia].
+    + destruct ((z <? 0) || (zlen ids <? z)); [reflexivity|].
+      destruct (Z.ltb_spec size 0); [reflexivity|lia].
 Qed.
 
-(* a panic is never an outcome of the current handler on a sorted listing, however many calls
-   the client makes and whatever it sends *)
-Lemma key_chain_no_panic_from v keys size :
-  StronglySorted slt keys -> ~ In EmptyString keys -> 0 <= size ->
-  forall fuel pre rest tok, keys = pre ++ rest -> tok <> TokMalformed ->
-    next_index v keys (last_key tok) = zlen pre ->
-    ~ In OPanic (key_chain v keys size fuel tok).
+(* a chain cut short is a prefix of the longer one *)
+Lemma chain_req_prefix {T Tok} (page : Tok -> Z -> outcome T) wrap : forall s1 s2 tok,
+  exists t, chain_req page wrap (s1 ++ s2) tok = chain_req page wrap s1 tok ++ t.
 Proof.
-  intros Hs Hne Hpos.
-  induction fuel as [|f' IH]; intros pre rest tok Hk Htok Hni Hin; [exact Hin|].
-  unfold key_chain in Hin. cbn [chain_with] in Hin.
-  rewrite (key_page_ok_tok _ keys tok size Htok Hpos) in Hin.
-  rewrite (key_page_core_split _ keys pre rest (last_key tok) size Hk Hni Hpos) in Hin.
-  destruct (zlen rest <? cap_page_size size) eqn:Hlt.
-  - destruct Hin as [H|[]]. discriminate.
-  - destruct Hin as [H|Hin]; [discriminate|].
-    pose proof (cap_bounds size Hpos) as Hc. apply Z.ltb_ge in Hlt.
-    set (cn := Z.to_nat (cap_page_size size)) in *.
-    assert (Hcn : (1 <= cn <= List.length rest)%nat) by (unfold cn, zlen in *; lia).
-    set (k' := nth (cn - 1) rest EmptyString) in *.
-    assert (HF : firstn cn rest = firstn (cn - 1) rest ++ [k']).
-    { unfold k'. replace cn with (S (cn - 1)) at 1 by lia. apply firstn_succ_nth. lia. }
-    assert (Hkeys : keys = (pre ++ firstn (cn - 1) rest) ++ k' :: skipn cn rest).
-    { rewrite Hk. rewrite <- app_assoc. f_equal.
-      transitivity (firstn cn rest ++ skipn cn rest); [symmetry; apply firstn_skipn|].
-      rewrite HF, <- app_assoc. reflexivity. }
-    assert (Hk'in : In k' keys) by (rewrite Hkeys; apply in_elt).
-    assert (Hk'ne : k' <> EmptyString) by (intros Heq; apply Hne; rewrite <- Heq; exact Hk'in).
-    pose proof Hs as Hs'. rewrite Hkeys in Hs'.
-    destruct (sorted_split_at _ _ _ Hs') as [Hle Hgt].
-    assert (Hkeys' : keys = (pre ++ firstn cn rest) ++ skipn cn rest).
-    { rewrite Hk. rewrite <- app_assoc. f_equal. symmetry. apply firstn_skipn. }
-    apply (IH (pre ++ firstn cn rest) (skipn cn rest) (TokKey k') Hkeys'); [discriminate| |exact Hin].
-    simpl. apply (next_index_split _ keys _ _ k' Hs Hkeys' Hk'ne); auto.
-    rewrite HF, app_assoc. exact Hle.
+  induction s1 as [|s ss IH]; intros s2 tok.
+  - exists (chain_req page wrap s2 tok). reflexivity.
+  - cbn [app chain_req]. destruct (page tok s) as [k [x|] t| |]; try (exists []; rewrite app_nil_r; reflexivity).
+    destruct (IH s2 (wrap x)) as [t' Ht']. exists t'. rewrite Ht'. reflexivity.
 Qed.
 
-Theorem key_never_panics s keys size tok fuel :
-  keys_wf keys = true -> ~ In OPanic (key_chain (variant_of s) keys size fuel tok).
+(* a panic is never an outcome of the current handlers on a sorted listing, however many calls
+   the client makes, whatever token and whatever page sizes it sends *)
+Theorem key_never_panics s keys dropkey sizes tok extra :
+  keys_wf keys = true -> Forall is_byte extra ->
+  ~ In OPanic (key_chain (cfg_of s) keys dropkey sizes (WFirst tok extra)).
 Proof.
-  intros Hwf Hin. destruct (keys_wf_spec keys Hwf) as [Hs Hne].
-  assert (Hbad : tok = TokMalformed \/ size < 0 -> False).
-  { intros Hb. destruct fuel as [|f]; [exact Hin|].
-    rewrite key_bad_input_rejected in Hin by exact Hb. destruct Hin as [H|[]]. discriminate. }
-  destruct (Z.ltb_spec size 0) as [Hneg|Hpos]; [apply Hbad; right; exact Hneg|].
-  assert (Ht : tok <> TokMalformed) by (intros ->; apply Hbad; left; reflexivity).
-  destruct (token_split (variant_of s) keys tok Hs Ht) as [pre [Hk Hni]].
-  exact (key_chain_no_panic_from _ keys size Hs Hne Hpos fuel pre _ tok Hk Ht Hni Hin).
+  intros Hwf Hex Hin.
+  destruct sizes as [|s0 ss]; [exact Hin|].
+  assert (Hgood : tok <> TokMalformed -> False).
+  { intros Htok. set (pad := repeat 0 (S (List.length keys))).
+    destruct (chain_req_prefix (key_page (cfg_of s) keys dropkey) WRaw (s0 :: ss) pad (WFirst tok extra)) as [t Ht].
+    assert (Hlen : zlen (expected_after keys tok) < zlen ((s0 :: ss) ++ pad)).
+    { pose proof (expected_after_len keys tok). unfold zlen in *. rewrite app_length. unfold pad. rewrite repeat_length. lia. }
+    destruct (key_chain_good (cfg_of s) keys dropkey _ tok extra (all_cfg_ok s) Hwf Htok Hex Hlen) as [He _].
+    apply enumerates_no_panic in He. apply He. unfold key_chain. rewrite Ht. apply in_or_app. left. exact Hin. }
+  destruct tok as [|k|].
+  - apply Hgood. discriminate.
+  - apply Hgood. discriminate.
+  - rewrite key_chain_rejects in Hin; [|reflexivity|discriminate]. destruct Hin as [H|[]]. discriminate.
 Qed.
 
-(* waste, from the first page: newest first, no empty page unless the log is empty *)
-Theorem waste_pages_enumerate ids size fuel :
-  0 <= size ->
+(* every answer of a well-shaped chain is a page *)
+Lemma shape_pages {T} : forall l : list (outcome T), chain_shape_ok l = true ->
+  forall o, In o l -> exists k nx t, o = OPage k nx t.
+Proof.
+  induction l as [|a l IH]; intros Hs o Hin; [destruct Hin|].
+  destruct a as [k [x|] t| |]; simpl in Hs; try discriminate.
+  - destruct Hin as [<-|Hin]; [eauto|]. apply IH; auto.
+  - destruct l; [|discriminate]. destruct Hin as [<-|[]]. eauto.
+Qed.
+
+(* HEADLINE, waste: any log, any page size on each request; newest first, no empty page unless
+   the log is empty *)
+Theorem waste_pages_enumerate ids sizes :
+  in32 (zlen ids) = true -> Forall (fun z => 0 <= z) sizes ->
+  Z.max (zlen ids) 1 <= zlen sizes ->
+  let obs := waste_chain ids sizes WEmpty in
+  chain_shape_ok obs = true
+  /\ concat_keys obs = rev ids
+  /\ pages_within_sizes (zlen ids) sizes obs
+  /\ zlen obs = calls_waste (zlen ids) sizes
+  /\ zlen obs <= Z.max (zlen ids) 1
+  /\ (ids <> [] -> Forall (fun o => page_keys o <> []) obs).
+Proof.
+  intros H32 Hpos Hfuel obs. unfold obs. rewrite waste_chain_empty_tok.
+  pose proof (zlen_nonneg ids) as Hn0.
+  destruct (waste_chain_from ids sizes (zlen ids) ltac:(lia) Hfuel) as [He [Hn Hne]].
+  rewrite (in32_wrap _ H32) in He.
+  destruct (enumerates_spec sizes _ _ _ Hpos He) as [Hsh [Hcat Hw]].
+  repeat split; auto.
+  - rewrite Hcat. unfold newest_first. rewrite to_nat_zlen, firstn_all. reflexivity.
+  - rewrite Hn. apply calls_waste_le. lia.
+  - intros Hids.
+    assert (Hp : 0 < zlen ids) by (destruct ids as [|x l]; [contradiction|rewrite zlen_cons; pose proof (zlen_nonneg l); lia]).
+    specialize (Hne Hp). apply Forall_forall. intros o Ho Hnil.
+    rewrite forallb_forall in Hne. specialize (Hne o Ho).
+    destruct (shape_pages _ Hsh o Ho) as [k [nx [t ->]]]. simpl in Hnil. subst k. discriminate.
+Qed.
+
+Corollary waste_pages_enumerate_const ids size fuel :
+  in32 (zlen ids) = true -> 0 <= size ->
   let c := waste_count size in
   let calls := (Z.max (zlen ids) 1 - 1) / c + 1 in
-  calls <= Z.of_nat fuel ->
-  let obs := waste_chain ids size fuel WEmpty in
+  Z.max (zlen ids) 1 <= Z.of_nat fuel ->
+  let obs := waste_chain ids (const_sizes size fuel) WEmpty in
   zlen obs = calls
   /\ chain_shape_ok obs = true
   /\ concat_keys obs = rev ids
   /\ pages_within c (zlen ids) obs
   /\ (ids <> [] -> Forall (fun o => page_keys o <> []) obs).
 Proof.
-  intros Hsize c calls Hfuel obs. unfold obs. rewrite waste_chain_empty_tok.
-  pose proof (zlen_nonneg ids) as Hn0.
-  assert (Hr : 0 <= zlen ids <= zlen ids) by lia.
-  destruct (waste_chain_from ids size Hsize fuel (zlen ids) Hr Hfuel) as [Hsh [Hcat [Hfit [Hlen Hne]]]].
+  intros H32 Hsize c calls Hfuel obs.
+  assert (Hpos : Forall (fun z => 0 <= z) (const_sizes size fuel)).
+  { apply Forall_forall. intros z Hz. apply repeat_spec in Hz. lia. }
+  assert (Hlen : zlen (const_sizes size fuel) = Z.of_nat fuel).
+  { unfold zlen, const_sizes. rewrite repeat_length. reflexivity. }
+  destruct (waste_pages_enumerate ids (const_sizes size fuel) H32 Hpos ltac:(rewrite Hlen; exact Hfuel))
+    as [Hsh [Hcat [Hw [Hn [_ Hne]]]]].
+  fold obs in Hsh, Hcat, Hw, Hn, Hne.
+  pose proof (zlen_nonneg ids). pose proof (waste_count_bounds size Hsize) as Hc. fold c in Hc.
   repeat split; auto.
-  - rewrite Hcat. unfold newest_first. rewrite to_nat_zlen, firstn_all. reflexivity.
-  - apply page_fits_within. exact Hfit.
-  - intros Hids. assert (Hpos : 0 < zlen ids) by (destruct ids as [|x l]; [contradiction|rewrite zlen_cons; pose proof (zlen_nonneg l); lia]).
-    specialize (Hne Hpos). apply Forall_forall. intros o Ho Hnil.
-    rewrite forallb_forall in Hne. specialize (Hne o Ho). rewrite Hnil in Hne. discriminate.
+  - rewrite Hn. apply calls_waste_const; auto.
+    unfold waste_calls. fold c. pose proof (div_le_self (Z.max (zlen ids) 1 - 1) c). lia.
+  - unfold c. rewrite <- (waste_count_is_spec size Hsize). eapply pages_within_const. exact Hw.
 Qed.
 
-(* what was wrong before the fixes, for every collection *)
-Theorem key_page_v0_negative_panics v keys size : size < 0 -> key_page_v0 v keys TokEmpty size = OPanic.
+(* ---- what was wrong before the fixes, for every collection ---- *)
+
+(* before 97d7676 (no validatePageSize): a negative page size panics *)
+Theorem key_page_no_validate_negative_panics c keys dropkey size :
+  pc_default c = 50 -> pc_max c = 1000 -> size < 0 ->
+  key_page (cfg_no_validate c) keys dropkey (WFirst TokEmpty []) size = OPanic.
 Proof.
-  intros Hneg. unfold key_page_v0, key_page_core, next_index. simpl last_key. cbn [key_eqb String.eqb].
-  assert (Hc : cap_page_size size = size).
-  { unfold cap_page_size, max_page_size. destruct (Z.eqb_spec size 0); [lia|]. destruct (Z.ltb_spec 1000 size); lia. }
-  rewrite Hc. pose proof (zlen_nonneg keys).
-  destruct (Z.ltb_spec (zlen keys) (0 + size)); [lia|].
+  intros Hd Hm Hneg. unfold key_page, token_of, cfg_no_validate. cbn [pc_validates andb last_key].
+  unfold key_page_core, next_index. cbn [key_eqb String.eqb pc_variant].
+  assert (Hc : forall c', pc_default c' = 50 -> pc_max c' = 1000 -> cap_of c' size = size).
+  { intros c' Hd' Hm'. unfold cap_of. rewrite Hd', Hm'. destruct (Z.eqb_spec size 0); [lia|]. destruct (Z.ltb_spec 1000 size); lia. }
+  rewrite Hc by assumption.
+  match goal with |- context [zlen ?l <? 0 + size] => pose proof (zlen_nonneg l); destruct (Z.ltb_spec (zlen l) (0 + size)); [lia|] end.
   destruct (Z.ltb_spec (0 + size - 1) 0); [reflexivity|lia].
+Qed.
+
+Lemma zlen_blank keys : zlen (blank_keys keys) = zlen keys.
+Proof. unfold zlen, blank_keys. rewrite map_length. reflexivity. Qed.
+
+Lemma nth_blank keys i : nth_key (blank_keys keys) i = EmptyString.
+Proof.
+  unfold nth_key, blank_keys. generalize (Z.to_nat i) as m. induction keys as [|k l IH]; intros [|m]; simpl; auto.
+Qed.
+
+(* before the read-mask fix: with a read mask that leaves the key field out, the listing that was
+   paged had blank keys, so every token named "" and the chain never ended: as long as a full page
+   fits, EVERY answer is the same first page with the same token *)
+Definition at_start (c : pager_cfg) (w : wiretok) : Prop :=
+  last_key (token_of c w) = EmptyString /\ token_of c w <> TokMalformed /\ extra_of c w = [].
+
+Theorem key_chain_mask_before_endless c keys size :
+  cfg_ok c = true -> 0 <= size -> cap_page_size size <= zlen keys ->
+  forall sizes, Forall (fun z => z = size) sizes ->
+  forall w, at_start (cfg_mask_before c) w ->
+  key_chain (cfg_mask_before c) keys true sizes w
+  = map (fun _ => OPage (firstn (Z.to_nat (cap_page_size size)) keys) (Some (encode_token (pc_enc c) EmptyString)) (wrap32 (zlen keys))) sizes.
+Proof.
+  intros Hc Hsize Hfit. destruct (cfg_ok_spec c Hc) as [Hd [Hm [He [Hv _]]]].
+  pose proof (cap_bounds size Hsize) as Hcb.
+  assert (Hpage : forall w, at_start (cfg_mask_before c) w ->
+            key_page (cfg_mask_before c) keys true w size
+            = OPage (firstn (Z.to_nat (cap_page_size size)) keys) (Some (encode_token (pc_enc c) EmptyString)) (wrap32 (zlen keys))).
+  { intros w [Hlk [Htm Hex]]. unfold key_page. cbn [pc_validates pc_mask_before cfg_mask_before andb].
+    rewrite Hv. cbn [andb]. destruct (Z.ltb_spec size 0); [lia|]. rewrite Hex.
+    assert (Hcore : key_page_core (cfg_mask_before c) (blank_keys keys) keys EmptyString [] size
+              = OPage (firstn (Z.to_nat (cap_page_size size)) keys) (Some (encode_token (pc_enc c) EmptyString)) (wrap32 (zlen keys))).
+    { unfold key_page_core. rewrite zlen_blank, nth_blank.
+      assert (Hcap : cap_of (cfg_mask_before c) size = cap_page_size size).
+      { unfold cap_of, cap_page_size, default_page_size, max_page_size. simpl. rewrite Hd, Hm. reflexivity. }
+      rewrite Hcap. unfold next_index. cbn [key_eqb String.eqb].
+      destruct (Z.ltb_spec (zlen keys) (0 + cap_page_size size)); [lia|].
+      destruct (Z.ltb_spec (0 + cap_page_size size - 1) 0); [lia|].
+      destruct (Z.ltb_spec (0 + cap_page_size size) 0); [lia|].
+      cbn [pc_enc cfg_mask_before]. rewrite encode_token_x_nil.
+      unfold slice. simpl skipn. replace (0 + cap_page_size size - 0) with (cap_page_size size) by lia. reflexivity. }
+    destruct (token_of (cfg_mask_before c) w) eqn:Ht; try contradiction.
+    - exact Hcore.
+    - simpl in Hlk. subst. exact Hcore. }
+  assert (Hmint : at_start (cfg_mask_before c) (WRaw (encode_token (pc_enc c) EmptyString))).
+  { unfold at_start, token_of, extra_of. cbn [pc_dec cfg_mask_before]. rewrite <- He.
+    rewrite <- encode_token_x_nil. rewrite minted_roundtrip; [|reflexivity|constructor].
+    repeat split. discriminate. }
+  induction sizes as [|s ss IH]; intros Hall w Hw; [reflexivity|].
+  inversion Hall as [|? ? Hs Hss]; subst.
+  unfold key_chain. cbn [chain_req map]. rewrite (Hpage w Hw). f_equal.
+  fold (key_chain (cfg_mask_before c) keys true). apply IH; auto.
+Qed.
+
+(* total_size = int32(len(items)): a listing of 2^31 items reports -2^31 *)
+Theorem total_size_wraps c keys :
+  cfg_ok c = true -> zlen keys = 2147483648 ->
+  exists ks nx, key_page c keys false (WFirst TokEmpty []) 0 = OPage ks nx (-2147483648).
+Proof.
+  intros Hc Hn.
+  rewrite (key_page_ok_tok c keys false (WFirst TokEmpty []) 0 Hc) by (simpl; try discriminate; lia).
+  simpl token_of. simpl last_key. simpl extra_of.
+  assert (Hni : next_index (pc_variant c) keys EmptyString = zlen (@nil string)) by reflexivity.
+  assert (Hcap : cap_of c 0 = 50) by (rewrite (cap_of_ok c 0 Hc); reflexivity).
+  rewrite (key_page_core_split c keys [] keys EmptyString [] 0 eq_refl Hni) by lia.
+  rewrite Hcap, Hn. change (2147483648 <? 50) with false. cbv iota.
+  change (wrap32 2147483648) with (-2147483648). eauto.
 Qed.
